@@ -92,3 +92,117 @@ Theorem C01_print : forall h v j s t s',
   (forall z, j = JN z -> in_range z = true) -> print_text h v = Ok t.
 Proof. exact text_js. Qed.
 Print Assumptions C01_print.
+
+(* ---- composition over arbitrary nesting (scalar fragment); proofs in Proofs/C01EvalProofs.v ---------------------
+   [scalar_core funcs e]: literals, template variables, the fifteen core binary operators, ! and unary -, ?: .
+   [repu v j]: [rep v j], or v = Nil and j = undefined (an undefined value that went through ?:).
+   [env_repu_on (fv e)] / [env_range_on (fv e)]: the variables of e hold values representing S's (repu), numbers in range.
+   [dead_quiet fs s e]: the operands S evaluates "for the domain check only" raise no flag either;
+   [dead_safe e]: the syntactic condition that implies it — operands that can be dead contain no + . *)
+From PV Require Import Base.Escape Tmpl.IR Pug.Ast Pug.Lower Proofs.C01EvalProofs.
+
+(* S alone: on the fragment the state changes by consed flags only *)
+Theorem C01_flags_mono : forall funcs fs s e j s',
+  scalar_core funcs e = true -> sem_expr fs s e = SOk (j, s') -> exists l, s_flags s' = l ++ s_flags s.
+Proof. exact sem_flags_mono. Qed.
+Print Assumptions C01_flags_mono.
+
+Theorem C01_state_unchanged : forall funcs fs s e j s',
+  scalar_core funcs e = true -> sem_expr fs s e = SOk (j, s') ->
+  s_env s' = s_env s /\ s_heap s' = s_heap s /\ s_out s' = s_out s /\ s_grown s' = s_grown s.
+Proof. exact sem_unchanged. Qed.
+Print Assumptions C01_state_unchanged.
+
+(* the fuel-explicit statement: any expression of the fragment, any fuel F >= need e (5 per operator level,
+   7 per ?: level, 1 for a leaf: need e <= 7 * depth e + 1), as an operand and as a stand-alone command *)
+Theorem C01_compile_eval_fuel : forall funcs E h e F fs s j s',
+  scalar_core funcs e = true -> (need e <= F)%nat ->
+  env_repu_on (fv e) (e_vars E) (s_env s) -> env_range_on (fv e) (s_env s) ->
+  sem_expr fs s e = SOk (j, s') -> s_flags s' = s_flags s -> dead_quiet fs s e = true ->
+  exists t a v,
+    carg funcs true e = Some (t, Some a) /\
+    eval_operand F E h a = Ok (v, h) /\ eval_cmd F E h [a] VInvalid = Ok (v, h) /\
+    repu v j /\ jv_ok j /\
+    s_env s' = s_env s /\ s_heap s' = s_heap s /\ s_out s' = s_out s /\ s_grown s' = s_grown s.
+Proof. exact compile_eval_fuel. Qed.
+Print Assumptions C01_compile_eval_fuel.
+
+Theorem C01_need_depth : forall e, (need e <= 7 * depth e + 1)%nat.
+Proof. exact need_depth. Qed.
+Print Assumptions C01_need_depth.
+
+(* expr_fuel = 400 is enough for every expression of nesting depth <= 56 (eval_pipeline reaches eval_cmd with 399) *)
+Theorem C01_compile_eval : forall funcs E h e fs s j s',
+  scalar_core funcs e = true -> (depth e <= 56)%nat ->
+  env_repu_on (fv e) (e_vars E) (s_env s) -> env_range_on (fv e) (s_env s) ->
+  sem_expr fs s e = SOk (j, s') -> s_flags s' = s_flags s -> dead_quiet fs s e = true ->
+  exists t a v,
+    carg funcs true e = Some (t, Some a) /\
+    eval_cmd (pred expr_fuel) E h [a] VInvalid = Ok (v, h) /\
+    eval_cmds expr_fuel E h [[a]] VInvalid = Ok (v, h) /\
+    repu v j /\ jv_ok j /\
+    s_env s' = s_env s /\ s_heap s' = s_heap s /\ s_out s' = s_out s /\ s_grown s' = s_grown s.
+Proof. exact compile_eval. Qed.
+Print Assumptions C01_compile_eval.
+
+(* buffered escaped code `= e`: the action wrap_value emits prints escape (print_string j) in any live state *)
+Theorem C01_text : forall funcs defs fuel dot st e fs s j s' t s2,
+  scalar_core funcs e = true -> (need e < expr_fuel)%nat ->
+  env_repu_on (fv e) (e_vars (env_of st dot)) (s_env s) -> env_range_on (fv e) (s_env s) ->
+  sem_expr fs s e = SOk (j, s') -> s_flags s' = s_flags s -> dead_quiet fs s e = true ->
+  printable j = true -> print_string s' j = SOk (t, s2) ->
+  exists tx a,
+    carg funcs true e = Some (tx, Some a) /\
+    wrap_value false tx a = [TAct (B "{{" ++ tx ++ B " | __pug__html" ++ B "}}") false false
+                                  (AcPipe ([], [[a]; [AIdent (B "__pug__html")]]))] /\
+    exec_node defs (S fuel) dot st (NAction ([], [[a]; [AIdent (B "__pug__html")]])) = Ok (emit st (escape t)).
+Proof. exact text_action. Qed.
+Print Assumptions C01_text.
+
+(* the same through cwrap, which emits static text for a literal and `{{op x | __pug__html}}` for ! and unary - *)
+Theorem C01_text_cwrap : forall funcs defs fuel dot st e fs s j s' t s2 toks,
+  scalar_core funcs e = true -> (need e < expr_fuel)%nat ->
+  env_repu_on (fv e) (e_vars (env_of st dot)) (s_env s) -> env_range_on (fv e) (s_env s) ->
+  sem_expr fs s e = SOk (j, s') -> s_flags s' = s_flags s -> dead_quiet fs s e = true ->
+  printable j = true -> print_string s' j = SOk (t, s2) ->
+  cwrap funcs false e = Some toks ->
+  exists tk n, toks = [tk] /\ node_of_tok tk = Some n /\
+               exec_node defs (S fuel) dot st n = Ok (emit st (escape t)).
+Proof. exact text_cwrap. Qed.
+Print Assumptions C01_text_cwrap.
+
+(* the syntactic condition implies the semantic one wherever S answers without a new flag *)
+Theorem C01_dead_safe : forall funcs e fs s j s',
+  scalar_core funcs e = true -> env_scalar_on (fv e) (s_env s) ->
+  sem_expr fs s e = SOk (j, s') -> s_flags s' = s_flags s ->
+  dead_safe e = true -> dead_quiet fs s e = true.
+Proof. exact dead_safe_dead_quiet. Qed.
+Print Assumptions C01_dead_safe.
+
+Theorem C01_compile_eval_safe : forall funcs E h e fs s j s',
+  scalar_core funcs e = true -> (depth e <= 56)%nat ->
+  env_repu_on (fv e) (e_vars E) (s_env s) -> env_range_on (fv e) (s_env s) ->
+  sem_expr fs s e = SOk (j, s') -> s_flags s' = s_flags s -> dead_safe e = true ->
+  exists t a v,
+    carg funcs true e = Some (t, Some a) /\
+    eval_cmd (pred expr_fuel) E h [a] VInvalid = Ok (v, h) /\
+    eval_cmds expr_fuel E h [[a]] VInvalid = Ok (v, h) /\
+    repu v j /\ jv_ok j /\
+    s_env s' = s_env s /\ s_heap s' = s_heap s /\ s_out s' = s_out s /\ s_grown s' = s_grown s.
+Proof. exact compile_eval_safe. Qed.
+Print Assumptions C01_compile_eval_safe.
+
+(* buffered code over the names in scope, escaped (`= e`) and unescaped (`!= e`), any scalar value
+   (null / undefined print nothing; unescaped undefined is the listed deviation F-C11-c and excluded) *)
+Theorem C01_print_code : forall funcs names e esc,
+  goodS funcs names e = true -> Pug.Lower.printable e = true ->
+  forall defs f dot st g g1 j t g2,
+    env_repu_on names (f_vars (cur st)) (s_env g) -> env_range_on names (s_env g) ->
+    sem_expr efuel g e = SOk (j, g1) -> print_string g1 j = SOk (t, g2) -> s_flags g2 = s_flags g ->
+    esc || negb (jv_undef j) = true ->
+    exists a,
+      Pug.Lower.lexpr funcs (goodS funcs names) e = Some a /\
+      exec_node defs (S f) dot st (NAction ([], [a] :: esc_cmds (negb esc))) = Ok (emit st (if esc then escape t else t)) /\
+      s_env g2 = s_env g /\ s_out g2 = s_out g.
+Proof. exact goodS_print. Qed.
+Print Assumptions C01_print_code.
